@@ -31,8 +31,8 @@ type item struct {
 	Side   string `json:"side,omitempty"` // before | after (sentinels)
 	Dist   string `json:"dist,omitempty"` // sentinels: 1ns 1ms 1s bucket 15s 1d 1mo; probes: from from+1 mid to-1
 	Ts     int64  `json:"ts"`
-	Marker string `json:"marker"`          // unique text: label value / label name suffix / line text / span name / function name
-	VMark  int64  `json:"vmark"`           // unique number: metric sample value / profile value
+	Marker string `json:"marker"`           // unique text: label value / label name suffix / line text / span name / function name
+	VMark  int64  `json:"vmark"`            // unique number: metric sample value / profile value
 	Shared bool   `json:"shared,omitempty"` // stored in the "mixed" series / trace (same key as a probe) instead of its own
 }
 
@@ -116,19 +116,29 @@ func labelsJSON(m map[string]string) string {
 	return sb.String()
 }
 
-// keep says whether the item is part of the database variant.
+// sel says which rows of which items a database variant holds.
 //
 //	full    everything
-//	ref     no sentinels, no rows of the other signal
-//	noprobe everything but the probes
-func keep(it *item, variant string) bool {
-	switch variant {
-	case "ref":
-		return it.Role == roleProbe || it.Role == roleGrey
-	case "noprobe":
-		return it.Role != roleProbe
+//	ref     no data rows of sentinels, nothing of the other signal; the index rows of the sentinels stay
+//	        (an index may be wider than the window: what must not change the answer is the data)
+//	ref+one ref plus the data rows of one more item
+type sel struct {
+	variant string
+	one     *item
+}
+
+func (s sel) data(it *item) bool {
+	if s.variant == "full" || it == s.one {
+		return true
 	}
-	return true
+	return it.Role == roleProbe || it.Role == roleGrey
+}
+
+func (s sel) index(it *item) bool {
+	if s.variant == "full" || it == s.one {
+		return true
+	}
+	return it.Role != roleOther
 }
 
 // byRole orders items probe, grey, other, sentinel (stable), so that an index row / 15 s bucket shared
@@ -165,7 +175,7 @@ func seriesLabels(tag string, it *item, metric bool) map[string]string {
 // ownType is the type the called API reads (1 logs, 2 metrics); items of role "other" are stored with
 // the other type. twinOf: the "other" item flagged Shared is stored under the labels (hence the
 // fingerprint) of the probe with Dist "mid".
-func buildLP(cluster bool, items []*item, variant string, tag string, ownType uint8) (*tables, error) {
+func buildLP(cluster bool, items []*item, variant sel, tag string, ownType uint8) (*tables, error) {
 	t := newTables(cluster)
 	metric := ownType == 2
 	otherType := uint8(3) - ownType
@@ -198,7 +208,7 @@ func buildLP(cluster bool, items []*item, variant string, tag string, ownType ui
 	var order []k15
 	items = byRole(items)
 	for _, it := range items {
-		if !keep(it, variant) {
+		if !variant.index(it) {
 			continue
 		}
 		tp := ownType
@@ -229,6 +239,9 @@ func buildLP(cluster bool, items []*item, variant string, tag string, ownType ui
 			for _, n := range names {
 				t.add("time_series_gin", m, day, n, lbls[n], fp, tp)
 			}
+		}
+		if !variant.data(it) {
+			continue
 		}
 		line, val := "", float64(it.VMark)
 		if tp == 1 {
@@ -289,12 +302,12 @@ func valID(s string) uint64 { return fnv64(s) % 10000 }
 // (onSpan): one span row, one attribute row per tag dated with the span's calendar date in the
 // WRITER's zone (MDate: time.Unix(ts/1e9, 0) converted by ch-go's ToDate with the zone offset), and
 // the kv rows the materialized view derives (same date).
-func buildTraces(cluster bool, items []*item, variant string, tag string, writerZone *time.Location) (*tables, error) {
+func buildTraces(cluster bool, items []*item, variant sel, tag string, writerZone *time.Location) (*tables, error) {
 	t := newTables(cluster)
 	kvSeen := map[string]bool{}
 	items = byRole(items)
 	for _, it := range items {
-		if !keep(it, variant) {
+		if !variant.index(it) {
 			continue
 		}
 		tid := string(id16(tag + it.Marker))
@@ -310,11 +323,15 @@ func buildTraces(cluster bool, items []*item, variant string, tag string, writer
 			"localEndpoint": map[string]any{"serviceName": svc},
 			"tags":          map[string]string{"c13": tag, "mk": it.Marker},
 		})
-		t.add("tempo_traces", rowMeta{It: it}, "0", tid, sid, "", it.Marker, it.Ts, dur, svc, int8(1), string(payload))
 		date := localDate(it.Ts, writerZone)
 		kvs := [][2]string{{"c13", tag}, {"mk", it.Marker}, {"mk_" + it.Marker, "1"}, {"name", it.Marker}, {"service.name", svc}}
+		if variant.data(it) {
+			t.add("tempo_traces", rowMeta{It: it}, "0", tid, sid, "", it.Marker, it.Ts, dur, svc, int8(1), string(payload))
+		}
 		for _, e := range kvs {
-			t.add("tempo_traces_attrs_gin", rowMeta{It: it, Date: date}, "0", date, e[0], e[1], tid, sid, it.Ts, dur)
+			if variant.data(it) {
+				t.add("tempo_traces_attrs_gin", rowMeta{It: it, Date: date}, "0", date, e[0], e[1], tid, sid, it.Ts, dur)
+			}
 			k := fmt.Sprintf("%d\x00%s\x00%s", date, e[0], e[1])
 			if !kvSeen[k] {
 				kvSeen[k] = true
@@ -351,7 +368,7 @@ func pprofPayload(it *item) string {
 // buildProfiles fills profiles / profiles_series / profiles_series_gin / profiles_series_keys as the
 // materialized views of profiles.sql do: series rows dated toDate(intDiv(timestamp_ns, 1e9)) = the
 // UTC day of the profile.
-func buildProfiles(cluster bool, items []*item, variant string, tag string) (*tables, error) {
+func buildProfiles(cluster bool, items []*item, variant sel, tag string, typePerItem bool) (*tables, error) {
 	t := newTables(cluster)
 	stu := chsql.Array{chsql.Tuple{"cpu", "nanoseconds"}}
 	type skey struct {
@@ -362,7 +379,7 @@ func buildProfiles(cluster bool, items []*item, variant string, tag string) (*ta
 	keySeen := map[string]bool{}
 	items = byRole(items)
 	for _, it := range items {
-		if !keep(it, variant) {
+		if !variant.index(it) {
 			continue
 		}
 		mk := it.Marker
@@ -370,6 +387,10 @@ func buildProfiles(cluster bool, items []*item, variant string, tag string) (*ta
 			mk = "mixed" + tag
 		}
 		svc := "svc" + mk
+		profTypeID := profTypeID
+		if typePerItem {
+			profTypeID = it.Marker + ":cpu:nanoseconds"
+		}
 		// profiles_series_mv: tags = arrayConcat(input tags, [('service_name', service_name)])
 		tagPairs := [][2]string{{"c13", tag}, {"mk", mk}, {"mk_" + mk, "1"}, {"service_name", svc}}
 		tags := chsql.Array{}
@@ -390,6 +411,9 @@ func buildProfiles(cluster bool, items []*item, variant string, tag string) (*ta
 					t.add("profiles_series_keys", m, day, p[0], p[1], fnv64(p[1])%50000)
 				}
 			}
+		}
+		if !variant.data(it) {
+			continue
 		}
 		fnID := fnv64("fn" + it.Marker)
 		nodeID := fnv64("node" + it.Marker)
